@@ -11,6 +11,13 @@ type recBackend struct {
 	inner   gofakes3.Backend
 	buckets []string
 	keys    []string
+
+	// when set, CopyObject runs the library's generic helper against this wrapper, and the
+	// PutObject it issues waits for gateRelease after signalling gateEntered
+	gateCopy    bool
+	inCopy      bool
+	gateEntered chan struct{}
+	gateRelease chan struct{}
 }
 
 func (r *recBackend) reset()          { r.buckets, r.keys = nil, nil }
@@ -46,6 +53,10 @@ func (r *recBackend) DeleteObject(b, k string) (gofakes3.ObjectDeleteResult, err
 }
 func (r *recBackend) PutObject(b, k string, meta map[string]string, input io.Reader, size int64) (gofakes3.PutObjectResult, error) {
 	r.k(b, k)
+	if r.gateCopy && r.inCopy {
+		close(r.gateEntered)
+		<-r.gateRelease
+	}
 	return r.inner.PutObject(b, k, meta, input, size)
 }
 func (r *recBackend) DeleteMulti(b string, objects ...string) (gofakes3.MultiDeleteResult, error) {
@@ -54,6 +65,12 @@ func (r *recBackend) DeleteMulti(b string, objects ...string) (gofakes3.MultiDel
 }
 func (r *recBackend) CopyObject(sb, sk, db, dk string, meta map[string]string) (gofakes3.CopyObjectResult, error) {
 	r.k(db, dk)
+	if r.gateCopy {
+		// exactly what the bundled backends do: the generic helper = GetObject then PutObject
+		r.inCopy = true
+		defer func() { r.inCopy = false }()
+		return gofakes3.CopyObject(r, sb, sk, db, dk, meta)
+	}
 	return r.inner.CopyObject(sb, sk, db, dk, meta)
 }
 
